@@ -355,6 +355,13 @@ def targets(ctx):
             yield {"all": "depth3_full", "pkgs": paths(), "wkt": True}
             yield {"all": "alias_shapes", "pkgs": ["", "a", "a.b", "a_b", "a.a_b", "a_b.a", "a.b.a_b", "a_b.a.b"], "wkt": False}
 
+    _all_cases_sorted = all_cases
+
+    def all_cases():  # noqa: F811 - every shape under two orders of the files on protoc's command line
+        for case in _all_cases_sorted():
+            yield case
+            yield dict(case, all=case["all"] + "/files_reversed", order="reversed")
+
     def all_ev(case):
         _style[0] = case.get("style", "upper")
         try:
@@ -372,7 +379,7 @@ def targets(ctx):
             tg = [(q, j) for j, q in enumerate(pkgs)]
             files[f"{fname(p)}_refs.proto"] = refs_proto(p, i, tg, wkt=case["wkt"])
             src_list.append((p, i, tg))
-        c = gen.compile_files(files, opts=tuple(case.get("opts", ())), tag="c13all_")
+        c = gen.compile_files(files, opts=tuple(case.get("opts", ())), tag="c13all_", order=case.get("order"))
         try:
             if c.protoc_rejected:
                 raise RuntimeError(f"protoc rejects the C13 all-at-once schema: {c.stderr[:300]}")
